@@ -21,14 +21,25 @@
 #define NDRAIN 8
 #endif
 /* pops attempted by the final drain: one more than can possibly be left */
-#define NPUSHOPS ((OA0 == 1) + (OA1 == 1) + (OB0 == 1) + (OB1 == 1) + (OC0 == 1) + (OC1 == 1))
+#define ISP(k) ((k) == 1 || (k) == 4)
+#define NPUSHOPS (ISP(OA0) + ISP(OA1) + ISP(OB0) + ISP(OB1) + ISP(OC0) + ISP(OC1))
 #define DRAIN_N ((PRE_PUSH - PRE_POP + NPUSHOPS + 1) < NDRAIN ? (PRE_PUSH - PRE_POP + NPUSHOPS + 1) : NDRAIN)
 #ifndef ITEMS_PER_PAGE
 #define ITEMS_PER_PAGE 1
 #endif
 #define THR(s) vp_thr_q_##s
 
+#ifndef BOUNDED
+#define BOUNDED 0
+#endif
+#if BOUNDED
+struct S_class_tbb__detail__d2__concurrent_bounded_queue Q;    /* CAP = capacity (set_capacity before the threads start) */
+#define Q_REP Q.f3
+#else
 struct S_class_tbb__detail__d2__concurrent_queue Q;
+#define Q_REP Q.f1
+#define CAP 1000000
+#endif
 
 /* ---- external boundary: r1::cache_aligned_allocate / deallocate (contract: malloc/free of the requested size) */
 /* The objects are handed out *typed* (the queue representation as a static object, pages as malloc(sizeof(page))): a byte-array
@@ -47,18 +58,46 @@ u8* _ZN3tbb6detail2r122cache_aligned_allocateEm(u64 n) {
   return p;
 }
 void _ZN3tbb6detail2r124cache_aligned_deallocateEPv(u8* p) { live_allocs--; VP_ASSERT(p != (u8*)&REP, "queue representation freed while the queue is alive"); free(p); }
+#if BOUNDED
+/* ---- external boundary of concurrent_bounded_queue: the r1:: entry points of src/tbb/concurrent_bounded_queue.cpp.
+ * allocate_bounded_queue_rep(n): memory for the representation followed by two concurrent_monitors (never touched by the header).
+ * wait_bounded_queue_monitor(monitors, tag, target, pred): concurrent_monitor::wait: returns when pred() is false; otherwise the
+ *   caller sleeps (registered under context `target` on monitor `tag`) and re-evaluates pred() only after a notification that
+ *   selects it. The test-and-sleep step is atomic (that is the monitor's no-lost-wake-up guarantee, checked on the real monitor
+ *   in C02); spurious wake-ups are possible in the real monitor and harmless here (pred() is re-evaluated), so not modelled.
+ * notify_bounded_queue_monitor(monitors, tag, ticket): monitor.notify(predicate_leq(ticket)): wakes every sleeper of monitor `tag`
+ *   whose context is <= ticket (unsigned comparison, as predicate_leq does). */
+int bq_sleeping[3]; u64 bq_tag[3], bq_target[3]; int bq_waits, bq_sleeps, bq_notifies, bq_wakes;
+u8* _ZN3tbb6detail2r126allocate_bounded_queue_repEm(u64 n) {
+  VP_ASSERT(n == sizeof(rep_t) && !rep_used, "unexpected representation size"); rep_used = 1; return (u8*)&REP;
+}
+void _ZN3tbb6detail2r126wait_bounded_queue_monitorEPNS1_18concurrent_monitorEmlRNS0_2d113delegate_baseE(
+    struct S_class_tbb__detail__r1__concurrent_monitor* mon, u64 tag, u64 target, struct S_class_tbb__detail__d1__delegate_base* pred) {
+  unsigned t = vp_cur;
+  __CPROVER_assume(t < 3);
+  if (bq_sleeping[t]) { VP_BLOCK(); return; }            /* still asleep: nobody notified this sleeper */
+  bq_waits++;
+  if (vp_call_pred(pred)) { bq_sleeping[t] = 1; bq_tag[t] = tag; bq_target[t] = target; bq_sleeps++; VP_BLOCK(); return; }
+}
+void _ZN3tbb6detail2r128notify_bounded_queue_monitorEPNS1_18concurrent_monitorEmm(struct S_class_tbb__detail__r1__concurrent_monitor* mon, u64 tag, u64 ticket) {
+  bq_notifies++;
+  for (int t = 0; t < 3; t++) if (bq_sleeping[t] && bq_tag[t] == tag && bq_target[t] <= ticket) { bq_sleeping[t] = 0; bq_wakes++; vp_changed = 1; }
+}
+#endif
 /* r1::throw_exception: with exceptions compiled out the real one aborts; reaching it without an injected fault is a failure */
 void _ZN3tbb6detail2r115throw_exceptionENS0_2d012exception_idE(u32 id) { VP_ASSERT(0, "throw_exception reached (bad_last_alloc) although no allocation failed"); }
 
 /* ---- history */
 #define MAXOPS 6
-enum { K_NONE = 0, K_PUSH = 1, K_POP = 2 };
+enum { K_NONE = 0, K_PUSH = 1, K_POP = 2, K_BPOP = 3, K_TRYPUSH = 4 };   /* push, try_pop, (bounded) blocking pop, try_push */
+#define IS_PUSH(k) ((k) == K_PUSH || (k) == K_TRYPUSH)
+#define IS_POP(k) ((k) == K_POP || (k) == K_BPOP)
 struct op { int used, kind, done, ok; unsigned inv, res, val; } H[MAXOPS];   /* index = tid*2 + slot */
 unsigned clk;
 void vp_inv(u32 tid, u32 slot, u32 kind, u32 val) { struct op* o = &H[tid * 2 + slot]; o->used = 1; o->kind = kind; o->val = val; o->inv = ++clk; }
 void vp_res(u32 tid, u32 slot, u32 ok, u32 val) {
   struct op* o = &H[tid * 2 + slot]; o->done = 1; o->ok = ok; o->res = ++clk;
-  if (o->kind == K_POP) o->val = val;
+  if (IS_POP(o->kind)) o->val = val;
 }
 
 /* kinds are scenario constants: the checker below has concrete control */
@@ -74,12 +113,15 @@ void vp_drained(u32 v) { drained[ndrained++] = v; }
 static int try_perm(const int* perm, int n) {
   /* real-time order: an operation that responded before another was invoked must be linearized first */
   for (int x = 0; x < n; x++) for (int y = x + 1; y < n; y++) if (H[perm[y]].res < H[perm[x]].inv) return 0;
-  unsigned content[SPECMAX]; int head = 0, tail = 0;
+  unsigned content[SPECMAX + 1]; int head = 0, tail = 0;
   for (int i = PRE_POP; i < PRE_PUSH; i++) content[tail++] = PREVAL(i);
   int match = 1;
   for (int x = 0; x < n; x++) {
     const struct op* o = &H[perm[x]];
-    if (KIND[perm[x]] == K_PUSH) content[tail++] = o->val;
+    int k = KIND[perm[x]];
+    if (k == K_PUSH) { if (tail - head >= CAP) return 0; content[tail++] = o->val; }     /* a (blocking) push takes effect only when there is room */
+    else if (k == K_TRYPUSH) { if (tail - head < CAP) { match &= o->ok; content[tail++] = o->val; } else match &= !o->ok; }
+    else if (k == K_BPOP) { if (head >= tail) return 0; match &= (o->val == content[head]); head++; }   /* a blocking pop takes effect only on a non-empty queue */
     else if (head < tail) { match &= (o->ok && o->val == content[head]); head++; }
     else match &= !o->ok;
   }
@@ -111,6 +153,9 @@ static int linearizable(void) {
 
 int main(void) {
   vp_q_ctor(&Q);
+#if BOUNDED
+  vp_q_set_capacity(&Q, CAP);
+#endif
   /* pre-state through the real operations (sequential) */
   for (int i = 0; i < PRE_PUSH; i++) vp_q_push(&Q, PREVAL(i));
   for (int i = 0; i < PRE_POP; i++) { u32 v = 0; int ok = vp_q_try_pop(&Q, &v); VP_ASSERT(ok && v == PREVAL(i), "sequential pre-state pop returned the wrong item"); }
@@ -121,9 +166,9 @@ int main(void) {
   THR(c_start)(&Q, 2, OC0, mkval(5), OC1, mkval(6));
 #endif
   for (int r = 0; r < ROUNDS; r++) {
-    VP_RUN(THR(a)) VP_RUN(THR(b))
+    VP_RUNT(THR(a), 0) VP_RUNT(THR(b), 1)
 #if NT == 3
-    VP_RUN(THR(c))
+    VP_RUNT(THR(c), 2)
 #endif
   }
 #if NT == 3
@@ -138,27 +183,31 @@ int main(void) {
   int npush = 0, npop_ok = 0;
   for (int i = 0; i < MAXOPS; i++) if (KIND[i] != K_NONE) {
     VP_ASSERT(H[i].used && H[i].done && H[i].kind == KIND[i], "operation never invoked / never responded");
-    if (KIND[i] == K_PUSH) npush++; else if (H[i].ok) npop_ok++;
+    if (IS_PUSH(KIND[i])) { if (H[i].ok) npush++; } else if (H[i].ok) npop_ok++;
   }
   /* every popped value was pushed (pre-state or by a push invoked before the pop responded), and at most once */
-  for (int i = 0; i < MAXOPS; i++) if (KIND[i] == K_POP && H[i].ok) {
+  for (int i = 0; i < MAXOPS; i++) if (IS_POP(KIND[i]) && H[i].ok) {
     int src = 0;
     for (int j = PRE_POP; j < PRE_PUSH; j++) if (H[i].val == PREVAL(j)) src = 1;
-    for (int j = 0; j < MAXOPS; j++) if (KIND[j] == K_PUSH && H[j].val == H[i].val && H[j].inv < H[i].res) src = 1;
+    for (int j = 0; j < MAXOPS; j++) if (IS_PUSH(KIND[j]) && H[j].val == H[i].val && H[j].inv < H[i].res) src = 1;
     VP_ASSERT(src, "try_pop returned a value nobody pushed (invented / torn / not yet pushed)");
-    for (int j = i + 1; j < MAXOPS; j++) if (KIND[j] == K_POP && H[j].ok)
+    for (int j = i + 1; j < MAXOPS; j++) if (IS_POP(KIND[j]) && H[j].ok)
       VP_ASSERT(H[j].val != H[i].val, "the same item was popped twice");
   }
-  VP_ASSERT(Q.f1 == &REP, "my_queue_representation changed (the unit treats it as immutable while threads run)");
+  VP_ASSERT(Q_REP == &REP, "my_queue_representation changed (the unit treats it as immutable while threads run)");
   VP_ASSERT(vp_q_invalid(&Q) == 0, "n_invalid_entries != 0 without any failed push");
   VP_ASSERT((long)vp_q_size(&Q) == (long)(PRE_PUSH - PRE_POP + npush - npop_ok), "size() != pushes - successful pops at quiescence");
-  VP_ASSERT(vp_q_tail(&Q) == (u64)(PRE_PUSH + npush), "tail ticket != number of pushes");
+  VP_ASSERT(vp_q_tail(&Q) == (u64)(PRE_PUSH + npush), "tail ticket != number of successful pushes");
+#if BOUNDED
+  VP_ASSERT(PRE_PUSH - PRE_POP + npush - npop_ok <= CAP, "more items stored than the capacity");
+  for (int t = 0; t < 3; t++) VP_ASSERT(!bq_sleeping[t], "a finished thread is still registered as a sleeper");
+#endif
   VP_ASSERT(vp_q_head(&Q) == (u64)(PRE_POP + npop_ok), "head ticket != number of successful pops");
   for (int l = 0; l < 8; l++) VP_ASSERT(vp_q_lane_ok(&Q, l), "lane invariant broken at quiescence (counters / page list / page mutex)");
   VP_ASSERT(vp_q_empty(&Q) == (PRE_PUSH - PRE_POP + npush - npop_ok == 0), "empty() wrong at quiescence");
 
   /* final sequential drain with the real try_pop: nothing lost, FIFO order of the remainder */
-  vp_thr_drain_start(&Q, DRAIN_N);
+  vp_cur = 0; vp_thr_drain_start(&Q, DRAIN_N);
   VP_RUNMAX(vp_thr_drain)
   VP_ASSERT(vp_thr_drain_fin, "final drain got stuck: an item that was pushed can never be popped (lane hand-off lost)");
   __CPROVER_assume(vp_thr_drain_fin);
@@ -169,7 +218,7 @@ int main(void) {
   }
   VP_ASSERT(linearizable(), "history is not linearizable to a sequential FIFO queue");
 #if ITEMS_PER_PAGE == 1
-  if (PRE_PUSH - PRE_POP + npush - npop_ok <= DRAIN_N) VP_ASSERT(live_allocs == 1, "page leak or double free: live allocations after drain != 1 (the queue representation)");
+  if (PRE_PUSH - PRE_POP + npush - npop_ok <= DRAIN_N) VP_ASSERT(live_allocs == (BOUNDED ? 0 : 1), "page leak or double free: live allocations after drain != 1 (the queue representation)");
 #endif
   VP_REACHED();
   return 0;
